@@ -172,7 +172,7 @@ ARG_LOCS = {
     'shared': ('zg{t}', 'DIM SHARED zg{t}\n'),
 }
 ARG_FORMS = [('{l}', True), ('({l})', False), ('(({l}))', False), ('{l} + {zero}', False), ('{one} * {l}', False),
-             ('-(-{l})', False), ('({l}) + {zero}', False)]
+             ('-(-{l})', False), ('({l}) + {zero}', False), ('+{l}', False), ('+({l})', False), ('{l} - {zero}', False)]
 ARG_STR_FORMS = [('{l}', True), ('({l})', False), ('{l} + ""', False), ('"" + {l}', False), ('(({l}))', False)]
 
 
